@@ -70,13 +70,14 @@ EmitCase == PrintT("CASE " \o ToJson([mode |-> mode, req |-> PathStr(Req), src |
                                      fs |-> FsSeq, expect |-> PathStr(Expected)]))
 
 \* design-level theorem on the transcription of generate_require (violations listed with -continue)
-ConvertOK == ConvertKeepsTarget(mode, OtherMode, Req, src, fs, Aliases, IF OtherMode = "luau" THEN S("init") ELSE mfn)
-              \/ (mfn # S("init"))     \* conversions are only claimed between equal folder names (luau mode is fixed to `init`)
+\* the folder name is a parameter of the PATH mode only (the luau mode is fixed to `init`): a path-mode project with another
+\* module_folder_name converts to luau requires that name the module-folder file in full (`./lib/index`)
+ConvertOK == ConvertKeepsTarget(mode, OtherMode, Req, src, fs, Aliases, mfn)
 ConvertReport == ConvertOK \/ PrintT("DESIGN-CONVERT " \o ToJson([mode |-> mode, req |-> PathStr(Req), src |-> PathStr(src), fs |-> FsSeq,
                       resolved |-> PathStr(Expected),
-                      generated |-> PathStr(Generate(OtherMode, Expected, src, fs, Aliases, S("init"))),
-                      reresolved |-> PathStr(DocResolve(OtherMode, Generate(OtherMode, Expected, src, fs, Aliases, S("init")), src, fs, Aliases, S("init")))]))
+                      generated |-> PathStr(Generate(OtherMode, Expected, src, fs, Aliases, mfn)),
+                      reresolved |-> PathStr(DocResolve(OtherMode, Generate(OtherMode, Expected, src, fs, Aliases, mfn), src, fs, Aliases, mfn))]))
 \* the same theorem for the unchecked shortening (what the code did before the fix): counted, not required
-UncheckedOK == ConvertKeepsTargetUnchecked(mode, OtherMode, Req, src, fs, Aliases, S("init")) \/ (mfn # S("init"))
+UncheckedOK == ConvertKeepsTargetUnchecked(mode, OtherMode, Req, src, fs, Aliases, mfn)
 UncheckedReport == UncheckedOK \/ PrintT("DESIGN-UNCHECKED " \o ToJson([mode |-> mode, req |-> PathStr(Req), src |-> PathStr(src), fs |-> FsSeq]))
 =============================================================================
